@@ -50,7 +50,7 @@ class Builder:
         name = name or self.fresh("x")
         if vals is None:
             vals = self.rng_vals(shape)
-        vals = np.asarray(vals, dtype=np.int64).reshape(shape)
+        vals = np.array(np.asarray(vals, dtype=np.int64).reshape(shape), copy=True)  # owns its memory, like mg.tensor(arr)
         if dtype.startswith("int") or dtype == "bool":
             const_eff = True
             c_arg = None
@@ -147,6 +147,12 @@ class Builder:
     def null_grad(self, t):
         self.stmts.append({"op": "null_grad", "t": t.name})
         self.mstmts.append(("null_grad", t.node))
+        self.stmt_node_count.append(self.n_nodes)
+
+    def delete(self, names):
+        for n in names:
+            self.tensors.pop(n, None)
+        self.stmts.append({"op": "del", "names": list(names)})
         self.stmt_node_count.append(self.n_nodes)
 
     def case(self, observe="backward"):
@@ -409,6 +415,36 @@ def gen_dag_program(rng, n_ops=None, n_leaves=None):
     return b
 
 
+def gen_history(rng, n_events=None, allow_del=True):
+    """several terminals sharing upstream tensors; backward / clear_graph / null_grad / new ops / del interleaved"""
+    b = Builder(rng)
+    for _ in range(rng.randint(1, 3)):
+        b.leaf(rng.choice(SHAPES[:14]), const=rng.random() < 0.15)
+    if all(t.const for t in b.tensors.values()):
+        b.leaf(rng.choice(SHAPES[:14]), const=False)
+    grow(b, rng, rng.randint(2, 7))
+    n_events = n_events or rng.randint(2, 7)
+    for _ in range(n_events):
+        r = rng.random()
+        live = [n for n in b.order if n in b.tensors]
+        nonconst = [n for n in live if not b.tensors[n].const]
+        if r < 0.40 and nonconst:
+            t = b.tensors[rng.choice(nonconst[-6:])] if rng.random() < 0.7 else b.tensors[rng.choice(nonconst)]
+            b.backward(t)
+        elif r < 0.52 and live:
+            b.clear(b.tensors[rng.choice(live)])
+        elif r < 0.60 and live:
+            b.null_grad(b.tensors[rng.choice(live)])
+        elif r < 0.92:
+            grow(b, rng, rng.randint(1, 3))
+        elif allow_del and len(live) > 2:
+            b.delete([rng.choice(live[1:])])
+    nonconst = [n for n in b.order if n in b.tensors and not b.tensors[n].const]
+    if nonconst:
+        b.backward(b.tensors[rng.choice(nonconst[-5:])])
+    return b
+
+
 # ------------------------------------------------------------------------------------------------
 # Coq printing
 # ------------------------------------------------------------------------------------------------
@@ -471,7 +507,8 @@ def model_stmt_index(b):
     for s in b.stmts:
         if s["op"] == "apply":
             mi += sum(1 for a in s["args"] if not isinstance(a, str))
-        mi += 1
+        if s["op"] != "del":
+            mi += 1
         out.append(mi)
     return out
 
@@ -493,7 +530,8 @@ def coq_gcase(b, result):
     for s, exc in zip(b.stmts, result["outcomes"]):
         n_extra = sum(1 for a in s.get("args", []) if not isinstance(a, str)) if s["op"] == "apply" else 0
         outs.extend([0] * n_extra)
-        outs.append(OUT_CODE.get(exc, 2))
+        if s["op"] != "del":
+            outs.append(OUT_CODE.get(exc, 2))
     snaps = []
     for snap in result["observations"]:
         after = snap["after"]          # number of impl statements executed
@@ -542,6 +580,8 @@ def builder_from_stmts(stmts):
             b.clear(b.tensors[s["t"]])
         elif k == "null_grad":
             b.null_grad(b.tensors[s["t"]])
+        elif k == "del":
+            b.delete(s["names"])
         else:
             raise ValueError(k)
     return b
